@@ -48,15 +48,16 @@ def gen(ex, level, budget, reserve=0):
     for l in range(0, level + 1):
         if avail >= 2:
             options.append(("chain", l))
-    if level >= 1 and avail >= 1 and len(budget) > 2 and budget[2] > 0:
-        options.append("neg")      # a unary minus over an atom or a parenthesised expression (S-C07-04)
+    if level >= 1 and avail >= 2 and len(budget) > 2 and budget[2] > 0 and budget[1] > 0:
+        options.append("neg")      # a unary minus over a parenthesised expression (S-C07-04)
     k = options[ex.choose(len(options))] if len(options) > 1 else options[0]
     if k == "atom":
         budget[0] -= 1
         return ("atom",)
     if k == "neg":
         budget[2] -= 1
-        return ("neg", gen(ex, -1, budget, reserve))
+        budget[1] -= 1
+        return ("neg", ("paren", gen(ex, 2, budget, reserve)))
     if k == "paren":
         budget[1] -= 1
         inner = gen(ex, 2, budget, reserve)
@@ -642,10 +643,11 @@ def main():
         print(("REPRODUCED: " if reproduced else "NOT REPRODUCED: ") + detail)
         return 1 if reproduced else 0
     parts = os.environ.get("C07_PARTS", "ABC")
-    if "A" in parts:
+    # parts A and C are single-process: a parallel worker of part B must not repeat them
+    if "A" in parts and not H.worker:
         validate(H, 60 if quick else 300)
         run_reassociation(H, 4 if quick else 5)
-    if "C" in parts:
+    if "C" in parts and not H.worker:
         run_grammar(H, 6 if quick else 8)
     nb = run_conformance(H, quick) if "B" in parts else "not run"
     H.bounds.update({"A": "expressions with at most %d operands over application, * /, + - and parentheses; operators, group flags, names and positions symbolic" % (4 if quick else 5),
